@@ -25,7 +25,7 @@ from __future__ import annotations
 import argparse
 from collections import OrderedDict
 import re
-from typing import Any, Callable, Dict, List, Optional, Tuple, TextIO, Union
+from typing import Any, Callable, Collection, Dict, List, Optional, Tuple, TextIO, Union
 import csv
 import functools
 import configparser
@@ -275,9 +275,17 @@ class IniConfigParser(ConfigFileParser):
         super().__init__()
         self.sections = sections
         self.split_ml_text_to_list = split_ml_text_to_list
+        self.known_keys: Optional[Collection[str]] = None
 
     def __call__(self) -> ConfigFileParser:
         return self
+
+    def set_known_keys(self, keys: Collection[str]) -> None:
+        """
+        Declare the keys that mean something to the application:
+        the value of any other key is returned as it is written, it is not evaluated (so it can't be in error).
+        """
+        self.known_keys = keys
 
     def parse(self, stream:TextIO) -> Dict[str, Any]:
         """Parses the keys and values from an INI config file."""
@@ -298,6 +306,9 @@ class IniConfigParser(ConfigFileParser):
                 if not value and self.split_ml_text_to_list:
                     # ignores empty values when split_ml_text_to_list is True
                     # because we can't differenciate empty list and empty string.
+                    continue
+                if self.known_keys is not None and k not in self.known_keys:
+                    result[k] = value
                     continue
                 # evaluate lists
                 if value.startswith('[') and value.endswith(']'):
@@ -364,6 +375,11 @@ class CompositeConfigParser(ConfigFileParser):
     def __call__(self) -> ConfigFileParser:
         return self
 
+    def set_known_keys(self, keys: Collection[str]) -> None:
+        for p in self.parsers:
+            if hasattr(p, 'set_known_keys'):
+                p.set_known_keys(keys)
+
     def parse(self, stream:TextIO) -> Dict[str, Any]:
         errors = []
         for p in self.parsers:
@@ -407,13 +423,17 @@ class ValidatorParser(ConfigFileParser):
         return self.config_parser.get_syntax_description() #type:ignore[no-any-return]
 
     def parse(self, stream:TextIO) -> Dict[str, Any]:
-        data: Dict[str, Any] = self.config_parser.parse(stream)
-
         # Prepare for checking config file.
         # This code maps all supported config keys to their 
         # argparse action counterpart, it will allow more checks to be done down the road.
         known_config_keys: Dict[str, argparse.Action] = {config_key: action for action in self.argument_parser._actions
             for config_key in self.argument_parser.get_possible_config_keys(action)}
+
+        # The value of an unknown key must not be able to abort the run: it is dropped below.
+        if hasattr(self.config_parser, 'set_known_keys'):
+            self.config_parser.set_known_keys(known_config_keys.keys())
+
+        data: Dict[str, Any] = self.config_parser.parse(stream)
 
         # Trigger warning
         new_data = {}
